@@ -260,7 +260,7 @@ func (t *taint) solve(funcs []*ssa.Function) {
 }
 
 func c08(c *Ctx) {
-	c.R.Explanation = "C08: only the fault clause is decided ('a failed or non-finite read leaves the smoothed value unchanged'). R-propagate = in every Sensor.GetValue implementation (and util.ReadIntFromFile) every return reachable from the err != nil edge of an error-returning call carries a non-nil error (no failure is converted into a value). R-skip = in the call tree of the sensor-monitor actor no path from the error edge of Sensor.GetValue reaches Sensor.SetMovingAvg or util.UpdateSimpleMovingAvg. R-finite = interprocedural taint: a value that originates from strconv.ParseFloat (the only source of NaN/±Inf; Atoi-based sources cannot produce them), followed through conversions, arithmetic, phi, locals, math.* and function returns (invokes resolved to all implementations), must cross edges establishing !math.IsNaN and !math.IsInf(.,0) before it reaches UpdateSimpleMovingAvg / SetMovingAvg in the monitor. Not decided: the hull and the geometric convergence rate (floating-point arithmetic over arbitrary sequences)."
+	c.R.Explanation = "C08: only the fault clause is decided ('a failed or non-finite read leaves the smoothed value unchanged'). R-propagate = in every Sensor.GetValue implementation (and util.ReadIntFromFile) every return reachable from the err != nil edge of an error-returning call carries a non-nil error (no failure is converted into a value). R-fresh = no Sensor.GetValue implementation reads through an open handle (os.File, bufio.Reader, ...) remembered in a field of the sensor object: the configured source is opened anew on every poll, so a deleted or replaced file is a failed read. R-skip = in the call tree of the sensor-monitor actor no path from the error edge of Sensor.GetValue reaches Sensor.SetMovingAvg or util.UpdateSimpleMovingAvg. R-finite = interprocedural taint: a value that originates from strconv.ParseFloat (the only source of NaN/±Inf; Atoi-based sources cannot produce them), followed through conversions, arithmetic, phi, locals, math.* and function returns (invokes resolved to all implementations), must cross edges establishing !math.IsNaN and !math.IsInf(.,0) before it reaches UpdateSimpleMovingAvg / SetMovingAvg in the monitor. Not decided: the hull and the geometric convergence rate (floating-point arithmetic over arbitrary sequences)."
 	c.R.Assumptions = append(c.R.Assumptions,
 		"strconv.Atoi/ParseInt cannot yield non-finite values; strconv.ParseFloat accepts nan/inf",
 		"the initial seeding of the average in InitializeObjects is not a poll (the statement's hull includes the initial value)")
@@ -278,6 +278,54 @@ func c08(c *Ctx) {
 		c.checkErrorPropagation("R-propagate", rf, func(call *ssa.Call) bool { return true })
 	}
 	c.R.Require("R-propagate", 4)
+
+	// ---- R-fresh: every poll reads the configured source anew -------------------------------
+	// a handle (open file, reader) remembered in the sensor object keeps answering after the configured
+	// path was deleted or replaced: such a fault is then no read failure any more and the stale number is
+	// averaged in. Handles used by GetValue must be created in the same activation.
+	nfresh := 0
+	for _, fn := range c.ImplMethods(PkgSensors, "Sensor", "GetValue") {
+		tree := c.Closure([]*ssa.Function{fn}, false, func(f *ssa.Function) bool {
+			p := load_FuncPkgPath(f)
+			return p != PkgSensors && p != PkgUtil
+		})
+		tbf := ir.NewTB(c.P.IsRepoFunc, c.P.FuncKey)
+		tbf.ParamCallers = c.CallersIn(tree)
+		stale := ""
+		for _, f := range c.SortedFuncs(tree) {
+			Calls(f, func(cc ssa.CallInstruction) {
+				com := cc.Common()
+				vals := append([]ssa.Value{}, com.Args...)
+				if com.IsInvoke() {
+					vals = append(vals, com.Value)
+				}
+				for _, v := range vals {
+					n := ir.NamedOf(v.Type())
+					if n == nil || n.Obj().Pkg() == nil {
+						continue
+					}
+					full := n.Obj().Pkg().Path() + "." + n.Obj().Name()
+					switch full {
+					case "os.File", "bufio.Reader", "bufio.Scanner", "net.Conn":
+					default:
+						continue
+					}
+					t := tbf.Of(v, nil)
+					if t.Has(func(x *ir.Term) bool { return strings.HasPrefix(x.Op, "field:") }) && t.Has(func(x *ir.Term) bool { return strings.HasPrefix(x.Op, "recv:") }) {
+						stale = full + " kept in " + t.String() + " is used at " + c.P.Pos(cc.Pos())
+					}
+				}
+			})
+		}
+		nfresh++
+		key := c.FK(fn)
+		if stale != "" {
+			c.R.Bad("R-fresh", key, key, c.P.Pos(fn.Pos()), "the reading comes through a handle remembered in the sensor object ("+stale+"): a deleted or replaced source keeps answering from the old object, so the fault is not a failed read and the stale value is averaged in")
+		} else {
+			c.R.Ok("R-fresh", key, key, c.P.Pos(fn.Pos()), "no open handle remembered in the sensor object is used: every poll opens the configured source anew")
+		}
+	}
+	c.R.Require("R-fresh", 3)
 
 	// ---- R-skip --------------------------------------------------------------------
 	var monitorFns []*ssa.Function
